@@ -16,7 +16,7 @@ LEVEL = "proof"
 LEAN_IMPORTS = ["WM.Props.C15"]
 THEOREMS = [
     "WM.C15.normalize_sat_partial", "WM.C15.normalize_answer_partial", "WM.C15.not_normalize_sat_full",
-    "WM.C15.never_raises", "WM.C15.ops_never_raise",
+    "WM.C15.never_raises", "WM.C15.ops_never_raise", "WM.C15.normalize_sat_plain", "WM.C15.defect_open_excl_start",
     "WM.C15.defect_and_null", "WM.C15.defect_not_null", "WM.C15.defect_and_every_field",
     "WM.C15.defect_and_range_multivalued", "WM.C15.defect_and_range_nested", "WM.C15.defect_odd_terms",
     "WM.C15.idempotent", "WM.C15.total", "WM.C15.range_merge_union", "WM.C15.range_merge_inter_partial",
@@ -27,8 +27,11 @@ THEOREMS = [
 ]
 _DEFECTS = ("the pinned tree's CompoundQuery.normalize/Not.normalize are not meaning preserving on trees outside "
             "WM.Clean.clean (And drops NullQuery clauses, Not(NullQuery) becomes NullQuery, And drops clauses next to "
-            "Every(field), And merges overlapping TermRanges) nor on documents holding the empty term or a term >= "
-            "U+FFFF; the full statement is refuted in Lean (not_normalize_sat_full, defect_*).  `clean` also "
+            "Every(field), And merges overlapping TermRanges), nor on documents holding a term >= U+FFFF "
+            "(Doc.BelowMax), nor -- only on an index that holds the empty term -- on trees with a TermRange whose "
+            "start is exclusive and open/empty where normalize() rewrites or merges it (hypothesis EOk = "
+            "WM.Clean.emptyOk q or no document holds the empty term; witness defect_open_excl_start); "
+            "the full statement is refuted in Lean (not_normalize_sat_full, defect_*).  `clean` also "
             "excludes (clause seq-child) every Sequence/Ordered whose subqueries are changed by normalize(): the "
             "positional part of a sequence is an abstract function of the syntactic subqueries (spans are not "
             "modelled), so nothing is claimed there; `clean` is decidable but defined through normalizeList/flatten "
@@ -36,10 +39,13 @@ _DEFECTS = ("the pinned tree's CompoundQuery.normalize/Not.normalize are not mea
 PARTIAL = {
     "WM.C15.normalize_sat_partial": _DEFECTS,
     "WM.C15.normalize_answer_partial": _DEFECTS,
-    "WM.C15.ops_and_partial": "inherits the normalize defects (hypothesis: the composed And is clean)",
-    "WM.C15.ops_or_partial": "inherits the normalize defects (hypothesis: both operands are clean)",
-    "WM.C15.ops_sub_partial": "inherits the normalize defects (hypothesis: the composed And([a, Not(b)]) is clean)",
-    "WM.C15.simplify_sat_partial": "inherits the normalize defects (hypothesis WM.Clean.cleanS)",
+    "WM.C15.normalize_sat_plain": "normalize_sat_partial on indexes without the empty term (no EOk hypothesis); "
+                                  "otherwise the same exclusions",
+    "WM.C15.ops_and_partial": "inherits the normalize defects (hypotheses: the composed And is clean and EOk)",
+    "WM.C15.ops_or_partial": "inherits the normalize defects (hypotheses: the composed Or is clean and EOk)",
+    "WM.C15.ops_sub_partial": "inherits the normalize defects (hypotheses: the composed And([a, Not(b)]) is clean "
+                              "and EOk)",
+    "WM.C15.simplify_sat_partial": "inherits the normalize defects (hypotheses WM.Clean.cleanS and EOkS)",
     "WM.C15.range_merge_inter_partial": "RangeMixin.merge(intersect=True) returns the outer range for nested "
                                         "ranges; proved for ranges neither of which contains the other",
     "WM.C15.apply_id_sat": "hypothesis seqNotFree: the positional part of Sequence/Ordered is abstract (spans "
@@ -89,10 +95,6 @@ ASSUMPTIONS = [
     "FuzzyTerm/Variations/Regex/NumericRange expansions are an arbitrary term predicate in the theorems; the "
     "oracle tabulates them from whoosh's own per-segment expansion; trees whose FuzzyTerm expands differently on the "
     "whole reader and per segment (property C19) are skipped",
-    "WM.Sat.sat reads Prefix/Wildcard/TermRange/FuzzyTerm/... as skipping the empty term, which the code did until "
-    "the fix: 'MultiTerm.matcher no longer skips the empty term'; the theorems exclude such documents anyway "
-    "(Doc.Plain), and on an index that holds the empty term the end-to-end stream compares the two searches only, "
-    "not the Lean spec (spec not yet re-aligned: the leaf lemmas depend on its shape)",
     "NumericRange.simplify/estimate_size (tiered byte ranges, property C13) are not mirrored; compared on real "
     "objects only",
     "Otherwise(a, b) is decided per segment by whoosh; the spec's whole-index reading is compared on single-segment "
@@ -119,6 +121,8 @@ TRUSTED = [
     "parameter `bracket` (theorems hold for every reading of brackets; the driver instantiates it with a mirror of "
     "fnmatch's bracket scanner, checked end-to-end)",
     "copy.deepcopy and pickle round-trips are structural identity (checked on the real objects only)",
+    "replace() of a term that occurs in the tree is outside the property's equivalence claim (the meaning changes); "
+    "the model function is compared node for node there as well, and the receiver must not be modified",
 ]
 MANIFEST = {
     "level_text": "Lean 4 theorems over an executable mirror of the rewrite methods of whoosh.query (normalize of "
@@ -140,7 +144,7 @@ MANIFEST = {
     "level_note": "Query classes: every class of whoosh.query is modelled except NestedParent/NestedChildren "
                   "(real-code stream only) and ColumnQuery; span queries are opaque leaves; copy/pickle are checked "
                   "on real objects only.  Partial theorems: normalize_sat/ops/simplify carry the hypothesis WM.Clean.clean(S) and "
-                  "Doc.Plain because the pinned tree (with its test-suite) is not meaning preserving there "
+                  "Doc.BelowMax / EOk because the pinned tree (with its test-suite) is not meaning preserving there "
                   "(findings/C15.json); apply_id/replace_absent assume no Not below a Sequence (spans not "
                   "modelled).  Trusted: Lean kernel, the hand-written model (sampled), CPython re/fnmatch/copy/"
                   "pickle, the harness.  Nine `fix:` commits (branch fam-normalize) are part of the tree the model "
@@ -251,6 +255,41 @@ def _eq_pairs(rng, q, qs, stat):
     return res
 
 
+_REPLACE_SIG = "Phrase.replace:rewrites-the-words-of-the-original-query(shared-list)"
+
+
+def _present_term(rng, x):
+    """(field id, text) of a term that replace() looks at somewhere in the tree, or None"""
+    found = []
+    for n in G.walk(x):
+        if n == "null":
+            continue
+        if n[0] == "term":
+            found.append((int(n[1]), G.s2t(n[2])))
+        elif n[0] == "multi" and n[1] in ("0", "1"):
+            found.append((int(n[2]), G.s2t(n[3])))
+        elif n[0] == "phrase":
+            found.extend((int(n[1]), G.s2t(w)) for w in n[2])
+    found = [t for t in found if t[0] in (0, 1, 2)]
+    return rng.choice(found) if found else None
+
+
+def _phrase_has(x, fid, old):
+    for n in G.walk(x):
+        if n == "null":
+            continue
+        if n[0] == "phrase" and int(n[1]) == fid and any(G.s2t(w) == old for w in n[2]):
+            return True
+        if n[0] == "opq":
+            inner = G.opq_inner(n)
+            subs = [y for y in inner[1:] if isinstance(y, list)]
+            for y in subs:
+                ys = y if (y and isinstance(y[0], list)) else [y]
+                if any(_phrase_has(z, fid, old) for z in ys):
+                    return True
+    return False
+
+
 def _range_pair(rng, stat):
     """requests + expected real results for RangeMixin.overlaps and RangeMixin.merge (both modes) on two
     TermRanges, mostly on one field, bounds biased to touching / nested / open-ended intervals"""
@@ -349,6 +388,31 @@ def _corr_worker(job):
                                         "normalize(normalize(q)) != normalize(q)"))
                 reqs.append("c15 norm2 %s" % qs)
                 meta.append(("normalize2", qs, q2s_, None, rs))
+        # replace() of a term that IS in the tree (last: on the pinned tree it can damage `q`): the result
+        # is the model's, and the receiver is left alone ("does not modify the original query in place")
+        tgt = _present_term(rng, G.parse1(qs))
+        if tgt is not None:
+            fid, old = tgt
+            try:
+                rs = G.q2s(q.replace(G.FNAMES[fid], old, u"zz"))
+                after = G.q2s(q)
+            except Exception as e:  # noqa
+                out["viol"].append(("replace-present:raises:%s" % _excname(e), {"op": "replace-present", "q": qs,
+                                    "arg": [fid, old]}, "a query", _excname(e), ""))
+                continue
+            finally:
+                _reset_null()
+            if after != qs:
+                out["viol"].append((_REPLACE_SIG if _phrase_has(G.parse1(qs), fid, old) else
+                                    "replace-present:mutates-its-argument",
+                                    {"op": "replace-present", "q": qs, "arg": [fid, old]}, qs, after,
+                                    "replace() of a term that occurs in the query changed the original query"))
+            if "(opq " in qs:
+                stat("replace-present:span-leaves-are-opaque-in-the-model(receiver-check-only)")
+            else:
+                reqs.append("c15 replace %d %s %s %s" % (fid, G.t2s(old), G.t2s(u"zz"), qs))
+                meta.append(("replace-present", qs, "", "%d:%s" % (fid, old), rs))
+    # (placed after the per-tree loop)
     # RangeMixin.overlaps / merge called directly (the model functions range_merge_* speak about)
     for _ in range(max(4, n // 2)):
         for req, m in _range_pair(rng, stat):
@@ -698,12 +762,9 @@ def _e2e_worker(job):
                         out["samples"].append({"spec-vs-search": qs, "q2": q2s_, "op": name, "spec": sexp_,
                                                "search": exp, "docs": docs, "layout": casemeta["layout"]})
                 if rs is not None and rs in spec:
-                    if spec[rs] != sexp_ and obs == exp and has_empty:
-                        # WM.Sat.sat still reads multi-term leaves as skipping the empty term (the code did
-                        # so until the fix: "MultiTerm.matcher no longer skips the empty term"); on an index
-                        # that holds the empty term the spec is not an oracle, the two searches are
-                        stat("spec-skipped:index-holds-the-empty-term(spec-stale-there)")
-                    elif spec[rs] != sexp_ and obs == exp:
+                    if has_empty:
+                        stat("spec-oracle-on-index-with-the-empty-term")
+                    if spec[rs] != sexp_ and obs == exp:
                         # the rewrite changed the meaning (per spec) although the searches agree
                         out["failing"].append({"sig": None, "op": name, "q": qs, "q2": q2s_, "expected": sexp_,
                                                "observed": spec[rs], "rewritten": rs, "case": casemeta,
@@ -1089,6 +1150,8 @@ SIGNATURES = {
     "and-every-field": "CompoundQuery.normalize:And-drops-clause-next-to-Every(field)",
     "and-range-overlap": "CompoundQuery.normalize:And-merges-overlapping-TermRanges",
     "seq-child": "Sequence.normalize:rewritten-subquery-changes-the-sequence",
+    # only on an index that holds the empty term (the tag is dropped otherwise, see _tags_of)
+    "open-excl-start": "TermRange.normalize/merge:exclusive-open-start-forgets-to-exclude-the-empty-term",
 }
 
 
@@ -1127,6 +1190,9 @@ def _tags_of(driver, small):
     tags, clean = sorted(set(parsed[0])), parsed[1]
     if (clean == "1") != (not tags):
         raise RuntimeError("WM.Clean.clean and WM.Clean.defects disagree on %r" % (small,))
+    if "open-excl-start" in tags and not any(d.get("k") == "" for d in small["docs"]):
+        # WM.Clean.emptyOk only matters on an index that holds the empty term (hypothesis EOk)
+        tags.remove("open-excl-start")
     return tags
 
 
@@ -1152,9 +1218,9 @@ def _classify(driver, small):
         if driver.ask([req])[0] == small.get("rewritten"):
             return "CompoundQuery.normalize:several-recorded-defects-in-one-tree"
     if not tags:
-        odd = _odd_terms(small["docs"])
-        if len(odd) == 1:
-            return "TermRange/Wildcard.normalize:%s" % odd[0]
+        # a tree inside the theorem's hypotheses clean/emptyOk: only Doc.BelowMax is left to fail
+        if _odd_terms(small["docs"]) == ["term-at-or-above-U+FFFF"]:
+            return "TermRange/Wildcard.normalize:term-at-or-above-U+FFFF"
         return "%s:changes-matching-documents-of-a-clean-tree" % op
     return "%s:unclassified:%s" % (op, "+".join(tags))
 
@@ -1430,6 +1496,17 @@ def _run_record(case):
         finally:
             _reset_null()
         return ra != rb, "normalize:not-idempotent", ra, rb, None
+    if op == "replace-present":
+        try:
+            q = G.s2q(qx)
+            fid, old = case["arg"]
+            q.replace(G.FNAMES[int(fid)], old, u"zz")
+            after = G.q2s(q)
+            return after != case["q"], _REPLACE_SIG, case["q"], after, None
+        except Exception as e:  # noqa
+            return True, "replace-present:raises:%s" % _excname(e), "a query", _excname(e), None
+        finally:
+            _reset_null()
     if op == "eq":
         # two queries that compare equal must match the same documents
         try:
